@@ -23,7 +23,8 @@ EXPLANATION = (
     "is free of stores and mutating calls (closed over resolved callees, depth 4); R5.4 every registered action's "
     "form_request path is accepted by the request tree rebuilt from all add_request sites, for every concrete "
     "component class it can address, ending at a handler with enough parameters; R5.5 every dynamic registration of a "
-    "removable component has a matching remove_request. NOT decided: that a handler which is reached changes only what "
+    "removable component has a matching remove_request; R5.6 every path that inserts a component into its owner's "
+    "collection also registers its route (frozen insertion/registration pairs). NOT decided: that a handler which is reached changes only what "
     "it should, and status 'success' meaning the operation really succeeded (behavioural)."
 )
 TECHNIQUE = "static: CFG must-pass on the dispatcher, request-tree reconstruction from all add_request sites vs evaluated form_request path templates, purity closure of validators"
@@ -332,6 +333,65 @@ def r5_5(ctx: Ctx, tree: RequestTree) -> None:
     ctx.floor("R5.5", "dynamic registrations", n, 7)
 
 
+# every dynamic registration is paired with the statement that makes the component part of the simulation: a path that
+# performs the insertion must also register the route (function -> (kind, text of the collection / callee), reason)
+INSERTION_PAIRS = {
+    "Folder.add_file": ("store", "self.files", "a file placed in the folder is addressable"),
+    "Node.connect_nic": ("store", "self.network_interface", "a connected interface is addressable by its number"),
+    "Network.add_node": ("store", "self.nodes", "a node added to the network is addressable by hostname"),
+    "SoftwareManager.install": ("store", "self.node.applications|self.node.services", "installed software is addressable by name"),
+    "FileSystem.create_folder": ("call", "Folder", "a newly created folder is addressable"),
+    "FileSystem.create_file": ("call", "add_file", "a created file is addressable through the file system's file manager"),
+}
+
+
+def r5_6(ctx: Ctx, tree: RequestTree) -> None:
+    ix = ctx.ix
+    ctx.rule("R5.6", "a component that is inserted into the simulation is registered in the request tree on the same path "
+                     "(no conditional or skipped registration): otherwise an action naming an existing component is "
+                     "answered 'unreachable' or reaches a stale object")
+    n = 0
+    for (cq, slot), ents in sorted(tree.slots.items()):
+        for e in ents:
+            if e.key is not None or e.site.fn is None:
+                continue
+            fn = e.site.fn
+            top = fn
+            while top.parent is not None:
+                top = top.parent
+            pair = INSERTION_PAIRS.get(fn.short) or INSERTION_PAIRS.get(top.short)
+            if pair is None or fn is not top and fn.short not in INSERTION_PAIRS:
+                continue  # request-time install helper inside _init_request_manager: covered by SoftwareManager.install
+            kind, what, reason = pair
+            g = CFG(fn.node)
+            regs = [x for x in g.nodes if any(c is e.site.call for c in node_calls(x))]
+            if kind == "store":
+                wants = what.split("|")
+                ins = [x for x in g.nodes if x.kind == "stmt" and isinstance(x.ast, ast.Assign) and any(
+                    isinstance(t, ast.Subscript) and unparse(t.value) in wants for t in x.ast.targets)]
+                # only the insertion that belongs to this registration (same isinstance branch for install)
+                if len(wants) > 1:
+                    ins = [x for x in ins if ("applications" in unparse(x.ast.targets[0])) == ("application" in slot)]
+            else:
+                ins = [x for x in g.nodes if any(call_name(c) == what for c in node_calls(x))]
+            if not ins or not regs:
+                raise AnalysisError(f"R5.6: insertion statement `{what}` or the registration not found in {fn.short}")
+            n += 1
+            bn = {r.id for r in regs}
+            witness = None
+            for st in ins:
+                pre = g.path_avoiding([st], lambda ed: False, blocked_nodes=bn)
+                if pre is None:
+                    continue
+                post = g.path_avoiding([g.exit], lambda ed: False, start=st, blocked_nodes=bn)
+                if post is not None:
+                    witness = path_text(pre) + [f"... L{st.lineno}: {unparse(st.expr_root())[:50]} ..."] + path_text(post)
+                    break
+            ctx.record("R5.6", f"{e.site.path}::{fn.short}::insertion into {what} always registers {e.key_text()}", e.where, witness is None,
+                       reason if witness is None else f"{fn.short} can insert the component without registering its route", witness)
+    ctx.floor("R5.6", "insertion/registration pairs", n, 6)
+
+
 def check(ctx: Ctx) -> None:
     tree = RequestTree(ctx.ix)
     if tree.problems:
@@ -348,3 +408,4 @@ def check(ctx: Ctx) -> None:
     r5_3(ctx)
     r5_4(ctx, tree, routes)
     r5_5(ctx, tree)
+    r5_6(ctx, tree)
